@@ -20,6 +20,7 @@ type lzCfg struct {
 	SizeInHeader bool
 	Size         int64
 	EOSMarker    bool
+	Zero         bool // pass the zero WriterConfig (fields above = documented defaults: lc3 lp0 pb2, 8 MiB, 4096, end marker)
 }
 
 func (c lzCfg) String() string {
@@ -27,6 +28,9 @@ func (c lzCfg) String() string {
 }
 
 func (c lzCfg) config() lzma.WriterConfig {
+	if c.Zero {
+		return lzma.WriterConfig{}
+	}
 	return lzma.WriterConfig{Properties: &lzma.Properties{LC: c.LC, LP: c.LP, PB: c.PB}, DictCap: c.DictCap, BufSize: c.BufSize,
 		Matcher: lzma.MatchAlgorithm(c.Matcher), SizeInHeader: c.SizeInHeader, Size: c.Size, EOSMarker: c.EOSMarker}
 }
@@ -247,6 +251,10 @@ func checkLzmaWriter(prop string) func(a *checkArgs, r *Result) error {
 			n = 6000
 		}
 		var cases []lzCase
+		for i := 0; i < 4; i++ {
+			name, d := pickData(rng, 30000)
+			cases = append(cases, lzCase{Op: "lzmawrite", Name: "zero-config/" + name, Cfg: lzCfg{LC: 3, PB: 2, DictCap: 8 << 20, BufSize: 4096, EOSMarker: true, Zero: true}, Data: hxe(d), Parts: partition(rng, len(d))})
+		}
 		cases = append(cases, lzCase{Op: "lzmawrite", Name: "corpus/F5-size0", Cfg: lzCfg{LC: 3, PB: 2, DictCap: 4096, BufSize: 4096, SizeInHeader: true}, Data: "-", Parts: []int{0}})
 		code := 0
 		for i := 0; i < n; i++ {
